@@ -59,3 +59,32 @@ func HarnessC11TwoSubsOneMsg() { c11Replay(1, 2, 0, false) }
 func HarnessC11Buffered()      { c11Replay(2, 1, 1, false) }
 func HarnessC11PreSub()        { c11Replay(1, 2, 0, true) }
 func HarnessC11TwoSubsTwoMsgs() { c11Replay(2, 2, 0, false) }
+
+// HarnessC11BlockingBatch: Persistent + BlockPublishUntilSubscriberAck; one Publish call carries two
+// messages while a Subscribe arrives at an arbitrary moment; a subscription already exists.
+func HarnessC11BlockingBatch() {
+	g := NewGoChannel(Config{Persistent: true, BlockPublishUntilSubscriberAck: true}, watermill.NopLogger{})
+	counts := []map[string]int{{}, {}}
+	consume := func(i int, ch <-chan *message.Message) {
+		vrt.MayBlock()
+		for m := range ch {
+			counts[i][m.UUID]++
+			vrt.Assert(counts[i][m.UUID] == 1, "a subscription that always acks never receives a message twice")
+			m.Ack()
+		}
+	}
+	ch0, err := g.Subscribe(context.Background(), "t")
+	vrt.Assert(err == nil, "subscribe")
+	go consume(0, ch0)
+	go func() {
+		ch, err := g.Subscribe(context.Background(), "t")
+		vrt.Assert(err == nil, "subscribe")
+		consume(1, ch)
+	}()
+	vrt.Assert(g.Publish("t", newMsg(0), newMsg(1)) == nil, "publish succeeds")
+	vrt.AtQuiescence(func() {
+		for i := 0; i < 2; i++ {
+			vrt.Assert(counts[i]["u0"] == 1 && counts[i]["u1"] == 1, "every subscription receives every published message exactly once (before, during or after Subscribe)")
+		}
+	})
+}
